@@ -866,8 +866,17 @@ class Node:
             # peers independently, so the connection is part of the key.
             message_id = (f"{conn.ident}:{msg.header.hop_by_hop_identifier}:"
                           f"{msg.header.end_to_end_identifier}")
-            self._origin_waiting_answer[message_id] = (
-                origin_host, time.time())
+            with self._busy_lock:
+                if self.connections.get(conn.ident) is not conn:
+                    # left in the read buffer of a connection that has been
+                    # removed meanwhile: it can no longer be answered, and
+                    # nothing would ever release what is recorded for it
+                    self.logger.warning(
+                        f"{conn} has gone, ignoring a request left in its "
+                        f"read buffer")
+                    return
+                self._origin_waiting_answer[message_id] = (
+                    origin_host, time.time())
 
         peer = self._find_connection_peer(conn)
         if peer:
@@ -996,9 +1005,16 @@ class Node:
         if receiving_app:
             # pending answers are tracked per connection; hop-by-hop ids are
             # only unique within one connection
-            waiting = self._peer_waiting_answer.setdefault(conn.ident, {})
-            waiting[(message.header.hop_by_hop_identifier,
-                     message.header.end_to_end_identifier)] = time.time()
+            with self._busy_lock:
+                if self.connections.get(conn.ident) is not conn:
+                    self.logger.warning(
+                        f"{conn} has gone, request "
+                        f"{hex(message.header.hop_by_hop_identifier)} is not "
+                        f"forwarded")
+                    return
+                waiting = self._peer_waiting_answer.setdefault(conn.ident, {})
+                waiting[(message.header.hop_by_hop_identifier,
+                         message.header.end_to_end_identifier)] = time.time()
             receiving_app.receive_request(message)
             return
 
